@@ -727,6 +727,99 @@ def zip_components(elem_terms):
     return base(z[2][0]), base(z[2][1])
 
 
+def argmin_info(ctx, ts):
+    """ts (or the tuple it is a component of) is the result of
+
+        C.iter().enumerate().map(|(i, n)| (i, space.distance(&n.<state>, target))).min_by(|a, b| a.d.partial_cmp(&b.d)..).unwrap()
+
+    i.e. the first element of minimal distance over the WHOLE container (Iterator::min_by returns the first of several
+    equally minimal elements - std documentation).  Returns dict(R, comp, cont, target, space, sf, idx_comp, dist_comp)
+    or None.  Checked: the scan is enumerate(iter(C)) with nothing skipped or filtered; the mapping closure returns the
+    enumerate index and distance(space, element.state, captured target) (either argument order); the comparator orders
+    by that distance component, first argument first (a reversed comparator would select the farthest)."""
+    from .core import DISTANCE
+    if len(ts) != 1:
+        return None
+    n = next(iter(ts))
+    comp = None
+    if n[0] == 'field' and n[2].isdigit() and len(n[1]) == 1:
+        comp = int(n[2])
+        n = next(iter(n[1]))
+    if n[0] != 'unwrap' or len(n[1]) != 1:
+        return None
+    m = next(iter(n[1]))
+    if not (m[0] == 'call' and m[1] == 'std::iter::Iterator::min_by' and len(m[2]) == 2 and len(m[2][0]) == 1 and len(m[2][1]) == 1):
+        return None
+    mp, c2 = next(iter(m[2][0])), next(iter(m[2][1]))
+    if not (mp[0] == 'call' and mp[1] == 'std::iter::Iterator::map' and len(mp[2]) == 2 and len(mp[2][0]) == 1 and len(mp[2][1]) == 1):
+        return None
+    en, c1 = next(iter(mp[2][0])), next(iter(mp[2][1]))
+    if c1[0] != 'closure' or c2[0] != 'closure':
+        return None
+    if not (en[0] == 'call' and en[1] == 'std::iter::Iterator::enumerate' and len(en[2]) == 1 and len(en[2][0]) == 1):
+        return None
+    it = next(iter(en[2][0]))
+    if not (it[0] == 'call' and it[1] == 'core::slice::<impl [T]>::iter' and len(it[2]) == 1):
+        return None
+    cont = it[2][0]
+    b1, b2 = ctx.core.body(c1[1]), ctx.core.body(c2[1])
+    if b1 is None or b2 is None or b1.arg_count != 2 or b2.arg_count != 3:
+        return None
+    f1, f2 = ctx.fn(b1), ctx.fn(b2)
+
+    def ret(f):
+        out = set()
+        for rb in f.return_blocks():
+            out |= f.local_terms(0, (rb, f.nstmts(rb)))
+        return out
+    r1 = ret(f1)
+    if len(r1) != 1 or next(iter(r1))[0] != 'tuple' or len(next(iter(r1))[1]) != 2:
+        return None
+    comps = next(iter(r1))[1]
+    elem = T(('param', 2, None))
+    idx_comp = dist_comp = None
+    target = space = sf = None
+    caps = c1[2]
+    for k, c in enumerate(comps):
+        if c == T(('field', elem, '0')):
+            idx_comp = k
+        elif len(c) == 1 and next(iter(c))[0] == 'call' and next(iter(c))[1] == DISTANCE and len(next(iter(c))[2]) == 3:
+            d = next(iter(c))
+            for (u, w) in ((d[2][1], d[2][2]), (d[2][2], d[2][1])):
+                un = next(iter(u)) if len(u) == 1 else None
+                wn = next(iter(w)) if len(w) == 1 else None
+                if un is None or wn is None:
+                    continue
+                # u = element.1.<state field>, w = captured variable k
+                if un[0] == 'field' and un[1] == T(('field', elem, '1')) and wn[0] == 'field' and wn[1] == T(('param', 1, None)) and wn[2].isdigit():
+                    kk = int(wn[2])
+                    sp = next(iter(d[2][0])) if len(d[2][0]) == 1 else None
+                    if kk < len(caps) and sp is not None and sp[0] == 'field' and sp[1] == T(('param', 1, None)) and sp[2].isdigit() and int(sp[2]) < len(caps):
+                        dist_comp, sf, target, space = k, un[2], caps[kk], caps[int(sp[2])]
+    if idx_comp is None or dist_comp is None:
+        return None
+    # comparator: a.<dist>.partial_cmp(&b.<dist>) [.unwrap_or(Equal) | .unwrap() | .expect()] or total_cmp, a before b
+    r2 = ret(f2)
+    if len(r2) != 1:
+        return None
+    q = next(iter(r2))
+    for _ in range(2):
+        if q[0] == 'unwrap' and len(q[1]) == 1:
+            q = next(iter(q[1]))
+        elif q[0] == 'call' and q[1] == 'std::option::Option::<T>::unwrap_or' and len(q[2]) == 2 and len(q[2][0]) == 1:
+            dflt = q[2][1]
+            if not all(x[0] == 'agg' and x[2] == 'Equal' for x in dflt):
+                return None
+            q = next(iter(q[2][0]))
+    if not (q[0] == 'call' and q[1] in ('std::cmp::PartialOrd::partial_cmp', 'core::f64::<impl f64>::total_cmp') and len(q[2]) == 2):
+        return None
+    want_a = T(('field', T(('param', 2, None)), str(dist_comp)))
+    want_b = T(('field', T(('param', 3, None)), str(dist_comp)))
+    if q[2][0] != want_a or q[2][1] != want_b:
+        return None
+    return {'R': T(n), 'comp': comp, 'cont': cont, 'target': target, 'space': space, 'sf': sf, 'idx_comp': idx_comp, 'dist_comp': dist_comp}
+
+
 def zip_elem_base(ts):
     """ts is (a projection .k.. of) the element of a loop over nested zips of plain iterations: the collection whose
     element it is (iter / iter_mut / into_iter stripped), e.g.  next(zip(iter_mut(O), zip(iter(A), iter(B))))!.1.0 -> A"""
